@@ -31,7 +31,7 @@ def RULE(tier):
         "Alias, DataNode over atoms {TaskRef a, TaskRef b, 1, 2, 'a'} with 0-2 arguments (ALL argument tuples, hence all permutations), "
         f"nested to depth 2 (second level: every ordered pair drawn from the atoms and {NREP[tier]} representative depth-1 nodes). "
         "All pairs are decided by grouping on (type, tokenize); for every pair with equal token / == the two nodes are called on each "
-        "assignment of {a,b}. non-trivial = a node that shares its token with at least one other node in U."
+        "assignment of {a,b}; additionally every node is re-pointed with substitute({a:b} | {b:a} | swap) AFTER its hash/token was observed and, if still equal to the original, evaluated against it. non-trivial = a node that shares its token with at least one other node in U."
     )
 
 
@@ -162,6 +162,9 @@ def run_shard(shard, ctx):
             ctx.violation(f"tokenize-raises:{type(e).__name__}", d, repr(e)[:200])
             continue
         groups.setdefault(tok, []).append(d)
+    for di, d in enumerate(descs):
+        if di % nparts == part and d[0] in ("Task", "List", "Tuple", "Set", "Dict"):
+            check_substitute(d, build, ctx)
     for gi, (tok, ds) in enumerate(sorted(groups.items(), key=lambda kv: repr(kv[1][0]))):
         if gi % nparts != part:
             continue
@@ -183,8 +186,40 @@ def run_shard(shard, ctx):
                         break
 
 
+def check_substitute(d, build, ctx):
+    """history: observe the node's identity (hash / token), re-point its references with substitute(), compare with the original"""
+    from dask.tokenize import tokenize
+
+    for m in ({"a": "b"}, {"b": "a"}, {"a": "b", "b": "a"}):
+        n = build(d)
+        deps = set(getattr(n, "dependencies", ()))
+        if not (deps & set(m)):
+            continue
+        try:
+            hash(n)
+        except TypeError:
+            pass
+        tok = tokenize(n)
+        n2 = n.substitute(dict(m))
+        case = ("subst", d, tuple(sorted(m.items())))
+        ctx.case(case, nontrivial=True)
+        same_id = (n2 == n) or tokenize(n2) == tok
+        if not same_id:
+            continue
+        v1, v2 = evaluate(n), evaluate(n2)
+        for a, (x, y) in enumerate(zip(v1, v2)):
+            if x[0] != y[0] or (x[0] == "ok" and not same(x[1], y[1])):
+                ctx.violation(f"substituted-node-equal-to-original:{d[0]}", case, f"after substitute({m}) the node still equals / shares the token of the original but on {ASSIGN[a]} -> {x!r} vs {y!r}")
+                break
+
+
 def replay(case, ctx):
     from dask.tokenize import tokenize
+
+    if case and case[0] == "subst":
+        _, build = universe("quick")
+        check_substitute(case[1], build, ctx)
+        return
 
     _, build = universe("quick")
     d1, d2 = case
